@@ -14,7 +14,7 @@ from .common import COQ, coq_str
 
 PID = "C13"
 PROPS_FILE = "props/C13.v"
-MODEL_TARGETS = ["model/Hash.vo"]
+MODEL_TARGETS = ["model/Hash.vo", "model/HashSites.vo"]
 RULE = ("E1: random step configurations (label, shell flag, input map, environment map with undefined "
         "variables, overrides, output map; names over an alphabet with non-ASCII, control and marker-like "
         "characters and the section keywords themselves; digests random, with embedded marker bytes, or "
@@ -26,13 +26,25 @@ RULE = ("E1: random step configurations (label, shell flag, input map, environme
         "ingredient must have different digests, permuted supply order must not change a digest, two "
         "ambiguity generators splice marker sequences into digests / move the override boundary, JSON "
         "round trips. A case is non-trivial when it has at least one input, environment variable or "
-        "override (digests), or when the file exists (refreshed); distinct by the full configuration.")
+        "override (digests), or when the file exists (refreshed); distinct by the full configuration. "
+        "E2 (call sites): system-level configurations (command, workdir, shell flag, real input and output files "
+        "with content and mode, tracked variable names, os.environ and infra_env entries with the values '', "
+        "'None', ' ', names equal to the section keywords, overrides incl. empty values) are set up for real "
+        "(files on disk, Workflow.define_step on a real Workflow, Scheduler._derive_job, os.environ patched) and "
+        "both call sites Executor._compute_inp_step_hash / _compute_full_step_hash run; the bytes they feed to "
+        "SHA-256 are compared inside Coq with inp_preimage (site_inp_cfg s) / (site_full_cfg s). Oracle on that "
+        "path: pairs differing in exactly one system-level ingredient (26 kinds, among them defined-but-empty "
+        "versus undefined, 'None' versus undefined, infra_env versus os.environ, tracked versus override) must "
+        "differ in the digest; 4 kinds of irrelevant change must not.")
 TRUSTED_BASE = [
     "Coq 8.16.1 kernel (vm_compute used in Examples, refutation witnesses and the correspondence evaluation)",
     "Print Assumptions: Closed under the global context for every C13 theorem (no axioms)",
     "translator/gen_hash.py (AST shapes of HashWords.update, _update_file_hashes, from_inp, with_out_hashes, "
     "FileHash.unknown/is_unknown/refreshed); the decoder and refreshed in model/Hash.v are hand-written",
-    "correspondence harness harness/p_c13.py (Gallina literal printer, hashlib.sha256 as SHA-256, os.stat)",
+    "translator/gen_hash_sites.py (AST shapes of the four call sites in executor.py, Executor.base_env, "
+    "Step.adjust_label / command_and_workdir / uses_shell / get_env_overrides, compute_*_hashes, the job plumbing)",
+    "correspondence harness harness/p_c13.py, harness/c13_exec.py (Gallina literal printer, hashlib.sha256 as "
+    "SHA-256, os.stat, os.environ patching)",
     "no extraction is used: the model is evaluated inside Coq by vm_compute",
 ]
 ASSUMPTIONS = [
@@ -41,7 +53,9 @@ ASSUMPTIONS = [
     "exercised by E1 with non-ASCII names",
     "labels, paths, environment variable names and values contain no NUL; dict keys are unique; "
     "mode and size are below 2^64 (to_bytes(8) raises otherwise); digests are 32 bytes or b'u'",
-    "the step label contains the command and the working directory (Step.adjust_label)",
+    "a tracked variable is never also an override of the same step (Workflow.define_step refuses it), so the "
+    "value the command sees for it is the one in Executor.base_env",
+    "json.loads(json.dumps(d)) == d for the str->str dict of overrides stored in step.env_overrides (exercised by E2)",
     "os.stat never reports a NaN mtime; mtime is compared as a float, as the code does",
     "JSON save/load round trip of FileHash/StepHash is tested only (cattrs + json are not modelled)",
 ]
@@ -62,6 +76,13 @@ def generate(ctx):
     ctx.facts = facts
     ctx.stats["translated"] = {k: facts[k] for k in ("markers", "unknown_digest", "widths", "keywords",
                                                       "skip_pairs", "files_sorted", "digest_word")}
+    # the call sites in executor.py (after GenHash.v, so that E1 still runs when this one fails closed)
+    from translator import gen_hash_sites
+    ctx.site_facts = None
+    text, sfacts = gen_hash_sites.generate()
+    ctx.write_gen("GenHashSites.v", text)
+    ctx.site_facts = sfacts
+    ctx.stats["translated_sites"] = sfacts
 
 
 # ---------------------------------------------------------------------------------------------
@@ -186,14 +207,14 @@ HEADER = ("From Coq Require Import List NArith Bool.\nImport ListNotations.\n"
           "(fh_inode a =? fh_inode b).\n")
 
 
-def coq_preimages(ctx, name, terms, chunk=150, timeout=600):
+def coq_preimages(ctx, name, terms, chunk=150, timeout=600, header=None):
     """Evaluate Gallina terms of type str inside Coq (vm_compute) and return them as bytes."""
     (COQ / "cases").mkdir(exist_ok=True)
     procs, out = [], []
     for ci in range(0, len(terms), chunk):
         part = terms[ci:ci + chunk]
         rel = f"cases/{ctx.pid}_{name}_{ci // chunk}.v"
-        body = [HEADER, "Definition outs : list N := ["]
+        body = [header or HEADER, "Definition outs : list N := ["]
         body.append(";\n".join(f"  pack ({t})" for t in part))
         body.append("].")
         body.append("Definition result := Eval vm_compute in outs.")
@@ -250,7 +271,8 @@ def _from_jsonable(o):
 
 
 CLOSURE = ["lib/Bytes.v", "lib/KeySort.v", "model/HashTypes.v", "gen/GenHash.v", "model/Hash.v",
-           "proofs/HashProofs.v", "props/C13.v"]
+           "proofs/HashProofs.v", "model/HashSiteTypes.v", "gen/GenHashSites.v", "model/HashSites.v",
+           "proofs/HashSitesProofs.v", "props/C13.v"]
 
 
 def correspondence(ctx):
@@ -264,6 +286,10 @@ def correspondence(ctx):
     _e1_digests(ctx)
     _e1_refreshed(ctx)
     _shape_report(ctx)
+    if getattr(ctx, "site_facts", None) is None:
+        ctx.notes.append("E2 (call sites) model comparison skipped: the translator did not produce gen/GenHashSites.v")
+    else:
+        _e2_sites(ctx)
 
 
 class _Recorder:
@@ -499,6 +525,170 @@ def _shape_report(ctx):
         + "; ".join(f"C13_{w}_full " + ("closes without extra hypotheses" if c else
                                         "is proved only under the extra hypotheses (see props/C13.v)")
                     for w, c in closes.items()))
+
+
+# ---------------------------------------------------------------------------------------------
+# E2: the call sites in executor.py (real Executor code path) versus site_inp_cfg / site_full_cfg
+# ---------------------------------------------------------------------------------------------
+
+HEADER_SITES = (HEADER + "From SV Require Import model.HashSiteTypes gen.GenHashSites model.HashSites.\n")
+
+SITE_FIXED = [
+    # defined-but-empty, the string 'None', names equal to keywords, infra wins over environ
+    {"command": "echo ${C13_A-unset}", "workdir": ".", "shell": True, "files": [], "env_deps": ["C13_A"],
+     "environ": [["C13_A", ""]], "infra": [], "ovrs": [], "outs": []},
+    {"command": "echo ${C13_A-unset}", "workdir": ".", "shell": True, "files": [], "env_deps": ["C13_A"],
+     "environ": [], "infra": [], "ovrs": [], "outs": []},
+    {"command": "x", "workdir": "sub/", "shell": False, "files": [["a.txt", "00", 0o644]],
+     "env_deps": ["None", "__env_overrides__", "C13_B"], "environ": [["None", "None"], ["C13_B", "env"]],
+     "infra": [["C13_B", "infra"]], "ovrs": [["C13_O1", ""], ["c13_a", "None"]], "outs": [["out.txt", None, 0o644]]},
+    {"command": "", "workdir": "b  # wd=c/", "shell": False, "files": [["__env_vars__", "", 0o600]],
+     "env_deps": [], "environ": [], "infra": [], "ovrs": [["__env_overrides__", "__env_overrides__"]],
+     "outs": [["o2", "6f", 0o755]]},
+]
+
+
+def _e2_sites(ctx):
+    from . import c13_exec as X
+    rng = ctx.rng
+    n = ctx.scale(90, 1200)
+    cfgs = [dict(c) for c in SITE_FIXED]
+    while len(cfgs) < n:
+        cfgs.append(X.gen_sys(rng))
+    checks, meta = [], []
+    with X.Runner() as runner:
+        for c in cfgs:
+            try:
+                r = runner.run(c)
+            except Exception as e:  # noqa: BLE001
+                ctx.add_failure("correspondence", "E2:site:impl-raises", f"E2:site:impl-raises:{type(e).__name__}",
+                                f"the real executor path raised {type(e).__name__}: {e}", witness={"s": c})
+                continue
+            di, pi = r["inp"]
+            df, pf, do, po = r["full"]
+            if hashlib.sha256(pi).digest() != di or hashlib.sha256(pf).digest() != df \
+                    or hashlib.sha256(po).digest() != do:
+                ctx.add_failure("correspondence", "E2:site:recorder", "E2:site:recorder-digest-mismatch",
+                                "sha256(recorded bytes) is not the digest the executor returned", witness={"s": c})
+                continue
+            if di != df:
+                ctx.add_failure("correspondence", "E2:site:inp-vs-full", "E2:site:inp-vs-full-differ",
+                                "_compute_inp_step_hash and _compute_full_step_hash give different input digests "
+                                "for the same configuration", witness={"s": c})
+            if r["out_check"] != do:
+                ctx.add_failure("correspondence", "E2:site:out-vs-full", "E2:site:out-check-vs-full-differ",
+                                "_compute_out_step_hash and _compute_full_step_hash give different output digests",
+                                witness={"s": c})
+            q = X.q_sys(c, r["inp_sigs"], r["out_sigs"])
+            for which, term, p in (("inp", f"inp_preimage (site_inp_cfg {q})", pi),
+                                   ("full", f"inp_preimage (site_full_cfg {q})", pf),
+                                   ("out", f"out_preimage (site_full_outs {q})", po)):
+                checks.append(f"str_eqb ({term}) {coq_str(p)}")
+                meta.append((which, c, p, term))
+            tracked = {k: X.effective(c, k) for k in c["env_deps"]}
+            ctx.case(("site", json.dumps(c, sort_keys=True)), bool(c["files"] or c["env_deps"] or c["ovrs"]))
+            ctx.count("site_tracked_%d" % min(len(tracked), 3))
+            for v in tracked.values():
+                ctx.count("site_tracked_undefined" if v is None else "site_tracked_empty" if v == "" else
+                          "site_tracked_None_string" if v == "None" else "site_tracked_value")
+            if any(k in dict(c["infra"]) for k in c["env_deps"]):
+                ctx.count("site_tracked_from_infra_env")
+            if c["workdir"] != ".":
+                ctx.count("site_with_workdir")
+    bad = common.run_cases(ctx, "e2site", HEADER_SITES, checks, chunk=120)
+    ctx.traces_validated += len(checks) - len(bad)
+    if bad:
+        model = coq_preimages(ctx, "e2diag", [meta[i][3] for i in bad[:3]], header=HEADER_SITES)
+    for j, i in enumerate(bad[:3]):
+        which, c, p, _ = meta[i]
+        ctx.add_failure("correspondence", f"E2:site-{which}", f"E2:site-{which}:model-differs",
+                        f"the bytes the real executor path hashed at the {which} site are not the model pre-image; "
+                        f"model {model[j].hex()} implementation {p.hex()}", witness={"which": which, "s": c})
+    ctx.count("E2_site_comparisons", len(meta))
+    ctx.sample({"E2-site": cfgs[5] if len(cfgs) > 5 else None})
+    _model_site_pairs(ctx)
+
+
+def _model_site_pairs(ctx):
+    """One-ingredient pairs evaluated in the generated MODEL only (no real run): when the site theorems
+    break, this says whether the generated call-site expressions themselves collide."""
+    from . import c13_exec as X
+    rng = ctx.rng
+    checks, meta = [], []
+    for i in range(ctx.scale(66, 660)):
+        kind = X.DIFFERENT[i % len(X.DIFFERENT)]
+        s = X.prepare(rng, X.gen_sys(rng), kind)
+        d = X.mutate(rng, s, kind)
+        if d is None:
+            continue
+        q1, q2 = X.q_sys(s, *X.static_sigs(s)), X.q_sys(d, *X.static_sigs(d))
+        checks.append(f"negb (str_eqb (inp_preimage (site_inp_cfg {q1})) (inp_preimage (site_inp_cfg {q2})))")
+        meta.append((kind, s, d))
+        ctx.case(("model-pair", kind, json.dumps(s, sort_keys=True), json.dumps(d, sort_keys=True)), True)
+    bad = common.run_cases(ctx, "sitepairs", HEADER_SITES, checks, chunk=120)
+    seen = set()
+    for i in bad:
+        kind, s, d = meta[i]
+        if kind in seen:
+            continue
+        seen.add(kind)
+        ctx.add_failure("correspondence", f"model:site-collision:{kind}", f"model:site-collision:{kind}",
+                        f"in the generated model two system-level configurations that differ in {kind} have the same "
+                        "input pre-image", witness={"kind": kind, "s1": s, "s2": d})
+
+
+def _site_digests(runner, c):
+    r = runner.run(c, record=False)
+    return r["inp"][0], r["full"][0], r["full"][2], r["out_check"]
+
+
+def _oracle_sites(ctx, per_kind):
+    """Pairs of system-level configurations on the REAL executor path."""
+    from . import c13_exec as X
+    rng = ctx.rng
+    fails = {}
+    with X.Runner() as runner:
+        first = [("env_empty_vs_unset", SITE_FIXED[0], SITE_FIXED[1])]
+        todo = list(first)
+        for kind in X.DIFFERENT + X.SAME + X.OUTPUT:
+            for _ in range(per_kind):
+                s = X.prepare(rng, X.gen_sys(rng), kind)
+                d = X.mutate(rng, s, kind)
+                if d is None:
+                    ctx.count("site_pair_not_applicable")
+                    continue
+                todo.append((kind, s, d))
+        for kind, s, d in todo:
+            try:
+                i1, f1, o1, c1 = _site_digests(runner, s)
+                i2, f2, o2, c2 = _site_digests(runner, d)
+            except Exception as e:  # noqa: BLE001
+                fails.setdefault(f"oracle:site:{kind}:impl-raises:{type(e).__name__}",
+                                 (f"the real executor path raised {type(e).__name__}: {e}", kind, s, d))
+                continue
+            ctx.case(("site-pair", kind, json.dumps(s, sort_keys=True), json.dumps(d, sort_keys=True)), True)
+            ctx.count("site_pair_" + kind)
+            if kind in X.DIFFERENT:
+                if i1 == i2 or f1 == f2:
+                    fails.setdefault(f"oracle:site:{kind}:same-inp-digest",
+                                     (f"two configurations of a step that differ in {kind} get the same input digest "
+                                      f"{i1.hex()[:16]} from the real executor ("
+                                      + ("both call sites" if i1 == i2 and f1 == f2 else
+                                         "_compute_inp_step_hash" if i1 == i2 else "_compute_full_step_hash") + ")",
+                                      kind, s, d))
+            elif kind in X.SAME:
+                if i1 != i2 or f1 != f2 or o1 != o2:
+                    fails.setdefault(f"oracle:site:{kind}:digest-changed",
+                                     (f"a change that is no ingredient ({kind}) changed a digest", kind, s, d))
+            else:
+                if o1 == o2 or c1 == c2:
+                    fails.setdefault(f"oracle:site:{kind}:same-out-digest",
+                                     (f"two output sets that differ in {kind} get the same output digest", kind, s, d))
+                if i1 != i2:
+                    fails.setdefault(f"oracle:site:{kind}:inp-digest-changed",
+                                     (f"an output change ({kind}) changed the input digest", kind, s, d))
+    for sig, (detail, kind, s, d) in fails.items():
+        ctx.add_failure("oracle", sig.split(":", 1)[1], sig, detail, witness={"kind": kind, "s1": s, "s2": d})
 
 
 # ---------------------------------------------------------------------------------------------
@@ -877,11 +1067,17 @@ def oracle(ctx):
     _oracle_pairs(ctx, ctx.scale(1300, 20000))
     _oracle_json(ctx, ctx.scale(60, 1000))
     _oracle_refreshed(ctx, ctx.scale(56, 560))
-    ctx.sample({"oracle": "one-ingredient pairs, order independence, ambiguity generators, JSON, refreshed on disk"})
+    _oracle_sites(ctx, ctx.scale(4, 40))
+    ctx.sample({"oracle": "one-ingredient pairs (hash.py and the real executor path), order independence, ambiguity "
+                          "generators, JSON, refreshed on disk"})
 
 
 def search(ctx):
     """An obligation or the translator broke and nothing produced a witness: run the oracle deeper."""
+    _oracle_sites(ctx, 40)
+    if any(f.witness is not None and f.kind == "oracle" and f.signature.startswith("oracle:site:")
+           for f in ctx.failures):
+        return
     _oracle_ambiguity(ctx, 2000)
     _oracle_pairs(ctx, 30000)
     _oracle_refreshed(ctx, 560)
@@ -890,6 +1086,16 @@ def search(ctx):
 def replay(ctx, obj):
     w = obj["failure"].get("witness") or {}
     print("replaying", json.dumps(w)[:600])
+    if "s1" in w and "s2" in w:
+        from . import c13_exec as X
+        with X.Runner() as runner:
+            for nm in ("s1", "s2"):
+                r = runner.run(w[nm])
+                print(nm, "label", repr(r["label"]), "tracked",
+                      {k: X.effective(w[nm], k) for k in w[nm]["env_deps"]}, "overrides", w[nm]["ovrs"])
+                print(nm, "inp digest (_compute_inp_step_hash)", r["inp"][0].hex(), "(_compute_full_step_hash)",
+                      r["full"][0].hex(), "out digest", r["full"][2].hex())
+                print(nm, "bytes hashed:", r["inp"][1])
     if "c1" in w and "c2" in w:
         c1, c2 = _from_jsonable(w["c1"]), _from_jsonable(w["c2"])
         d1, d2 = impl_digests(c1, explained=False), impl_digests(c2, explained=False)
